@@ -358,9 +358,38 @@ def storeLine (o : OSt) (line : String) : OSt :=
   | _ => o.flag (.bad s!"line: {line}")
 
 
+/-- `kind=queued`: a mid-chain range (of the real chain, once the queued Append has been applied) must be rejected
+    with no effect, however busy the flush loop was when DeleteRange was called -/
+def evalQueued (ins outs : List String) : Verdict :=
+  match kvNat? ins "n2", kv? outs "delete", kvNat? outs "head", kvNat? outs "tail", (kv? outs "stored").bind natList? with
+  | some n2, some del, some hd, some tl, some stored =>
+    if del == "ok" then .prop "c08_shapes" s!"a mid-chain range was accepted (head={hd} tail={tl} stored={stored})" else
+    if del == "hang" then .prop "c08_reject_noeffect" "DeleteRange did not return" else
+    if !(hd == n2 && tl == 1 && stored == (List.range n2).map (· + 1)) then .prop "c08_reject_noeffect" s!"head={hd} tail={tl} stored={stored}" else
+    .ok "queued"
+  | _, _, _, _, _ => .bad "queued fields"
+
+/-- `kind=flushinhandler`: the pending batch is flushed while the handler of an unflushed header is in flight -/
+def evalFlushInHandler (ins outs : List String) : Verdict :=
+  match kvNat? ins "n", kvNat? ins "to", kvNat? ins "more", kv? outs "delete", kvNat? outs "head", kvNat? outs "tail",
+        (kv? outs "stored").bind natList?, (kv? outs "keys").bind natList?, kv? outs "second", kvNat? outs "handledTwice" with
+  | some n, some to, some more, some del, some hd, some tl, some stored, some keys, some second, some twice =>
+    let top := n + more + 2
+    -- after the probe delete of the new tail the chain is [to+1 .. top] (or [to .. top] if the probe was not run)
+    if del != "ok" then .prop "c14_error_returned" s!"delete={del} although no handler failed" else
+    if stored.any (· < to) || keys.any (· < to) then .prop "c08_removed" s!"headers below {to} are still there: stored={stored} keys={keys}" else
+    if !(tl == to && hd == top) then .prop "c08_pointers" s!"tail={tl} head={hd}, expected {to}..{top}" else
+    if stored != (List.range (top + 1 - to)).map (· + to) then .prop "c08_outside_untouched" s!"stored={stored}" else
+    if second != "ok" then .prop "c08_retry_completes" s!"second delete: {second}" else
+    if twice != 0 then .prop "c14_once_per_removed" s!"{twice} removed heights were handled again by a later DeleteRange" else
+    .ok "flushinhandler"
+  | _, _, _, _, _, _, _, _, _, _ => .bad "flushinhandler fields"
+
 /-- DeleteRange(1,to) on 1..n through the PARALLEL path with a refusing handler, then a retry with the handler
 healed (`kind=parfail`).  Pure predicates from the texts of C08 / C14 / C04 on the implementation's observation. -/
 def evalParFail (tag : String) (ins outs : List String) : Verdict :=
+  if kv? ins "kind" == some "queued" then evalQueued ins outs else
+  if kv? ins "kind" == some "flushinhandler" then evalFlushInHandler ins outs else
   match kvNat? ins "n", kvNat? ins "to", kvNat? ins "failfrom", kvNat? ins "only",
         kv? outs "res1", kvNat? outs "tail1", kvNat? outs "head1", (kv? outs "stored1").bind natList?, (kv? outs "keys1").bind natList?,
         (kv? outs "handled1").bind natList?, kv? outs "res2", kvNat? outs "tail2", kvNat? outs "head2",
